@@ -48,15 +48,16 @@ pub fn emit(e: &mut Emitter, seed: u64, thorough: bool) {
         // mixed Fixed schedules need at least 2^6 rows: large programs with hashing for those cases
         let nops = if i % 5 == 0 || i % 7 == 4 { r.range(100, 300) } else { r.range(6, 70) } as usize;
         let features = if i % 7 == 4 { features | 2 } else { features };
-        let prog = if i % 8 == 3 {
-            // lookup-heavy: counts at exact multiples of the LookupGate slot count (and one off)
+        let cheap = i % 3 != 0;
+        let mut config = config_for(&mut r, i, cheap);
+        let prog = if i % 8 == 3 || i == 5 {
+            // lookup-heavy: counts at exact multiples of the LookupGate slot count of THIS configuration
+            // (num_routed_wires / 2) and one off
             let n_tables = r.range(1, 3) as usize;
-            let slots = 40;
+            let slots = config.num_routed_wires / 2;
             let counts: Vec<usize> = (0..n_tables).map(|t| [slots, 2 * slots, slots + 1, slots - 1][(i / 8 + t) % 4]).collect();
             crate::c08::lookup_prog(&mut r, n_tables, &counts, 26)
         } else { gen_prog(&mut r, nops, features) };
-        let cheap = i % 3 != 0;
-        let mut config = config_for(&mut r, i, cheap);
         // regression corpus of F-C01-1: Fixed schedules whose arities exceed the degree of a tiny circuit
         let prog = if let Some(st) = &sched {
             config = gen_config(&mut r, true);
